@@ -41,5 +41,6 @@ static int mk_client(void) {
 	g_c.tail = nondet_size(); g_c.requestCount = nondet_size(); g_c.requestCountOffset = nondet_size();
 	g_c.instanceId = nondet_ull(); g_c.messageId = nondet_ull();
 	g_off0 = g_c.requestCountOffset;
+	g_env_now = nondet_ll();
 	return 1;
 }
